@@ -563,6 +563,9 @@ def obligations(prop, tier):
         for k in ((1, 2) if q else (1, 2, 3, 4)):
             out.append(TuneShapeRef(k))
             out.append(TuneShapeRef(k, "http://ex.org/shapes/", [("http://ex.org/", "ex"), ("http://ex.org/shapes/", "")]))
+            # labels whose namespace is not declared but a shorter one is: the remainder holds '#' or '/', so no prefixed name is possible
+            out.append(TuneShapeRef(k, "http://ex.org/shapes#", [("http://ex.org/", "ex"), (SHNS, "")]))
+            out.append(TuneShapeRef(k, "http://ex.org/sh/x", [("http://ex.org/", "ex"), ("http://ex.org/sh", "es"), (SHNS, "")]))
         for ns in ("http://ex.org/", "http://ex.org/ont#", "http://ex.org/a/b/"):
             for k in ((1, 2) if q else (1, 2, 3, 4)):
                 out.append(ShapeNameForClass(ns, k))
